@@ -398,6 +398,8 @@ def build_request(ex, meta):
         r["keep_unreachable"] = True
     if o.get("map_collect") == "1":
         r["map_collect"] = True
+    if o.get("slice_break_value") == "1":
+        r["slice_break_value"] = True
     if o.get("opaque_into") == "1":
         r["opaque_into"] = True
     if "slice_group" in o:
